@@ -24,6 +24,18 @@ CHECKS = {
         "note": "INKEY$ is excluded (polls the real terminal); an exhausted instruction budget is inconclusive; screen statements run against the harness's null screen.",
         "design": "DESIGN.md section 2 C08",
     },
+    "C10": {
+        "technique": "runtime monitoring: the real parser's tree for every enumerated operator chain compared with an independent precedence climber; differing shapes adjudicated by running chain and standard parenthesisation in the real interpreter on assignment vectors; literal nodes compared with the rule table",
+        "text": "Bounded-exhaustive: every chain with at most 3 (quick) / 4 (thorough) binary and unary operators over distinct variables, each also with parentheses around every contiguous sub-chain, plus random chains up to 6 binary operators; decimal/&H/&O literals (all 65536 16-bit values in the thorough tier, sampled 32-bit values, boundaries, leading zeros, lower case, after unary minus) and fractional literals with and without #.",
+        "note": "Shape comparison uses the public Expression enum; value adjudication compares the implementation with itself, so it cannot see a grouping error that is value-equivalent on all 32 vectors; the property's own precedence table is the reference.",
+        "design": "DESIGN.md section 2 C10",
+    },
+    "C15": {
+        "technique": "runtime monitoring: structural invariant walk over the generated instruction list at the quiescent point before execution, plus an online trace checker on per-instruction hook events (no pop on an empty stack, stack depth is a function of the statement address per activation, depths at procedure return equal those at entry, executed branches stay in their procedure)",
+        "text": "Every accepted program embedded in the repository and 2e4 (quick) / 5e5 (thorough) generated programs are compiled and run under the monitors. The static all-paths claim of the property is outside runtime monitoring: what is decided is every path the workload executes; the evidence reports how many conditional branches were observed both taken and not taken, the opcode histogram and the number of distinct (address, depth-vector) states.",
+        "note": "GOSUB depth is legitimately variable and excluded from the depth vector; statements inside an ON ERROR GOTO handler are exempt from the depth-function clause; unexecuted paths are not judged.",
+        "design": "DESIGN.md section 2 C15",
+    },
     "C17": {
         "technique": "runtime monitoring: real interpreter run on bounded-exhaustive and random string-function calls, outputs judged online by an executable reference model (Python string operations)",
         "text": "Every enumerated instance of the defining equations is executed by the real pipeline (parse, lint, generate, VM) and compared with the model; exhaustive over the alphabet {a,B,space} up to length 3 (quick) / 5 (thorough) with counts -1..7, all 65536 INTEGER values for VAL(STR$(k)) in the thorough tier, plus random printable-ASCII strings. Held means: held on the executions listed in the evidence.",
